@@ -570,10 +570,54 @@ static void deep_util_run(void)
             if (st != 0 || !tb || strcmp(tb, tc)) viol("C16", "test + replace of the innermost value of a document nested %d deep (%s): status %d or another result", depth, what, st);
             cJSON_free(tb); cJSON_Delete(patch);
         }
+        /* Compare on the deep documents: arrays only (the object case of cJSON_Compare does 2^depth work) */
+        if (shape == 0) {
+            if (!cJSON_Compare(a, c, 1) || !cJSON_Compare(c, a, 0)) viol("C12", "two equal documents nested %d deep (arrays) do not compare equal", depth);
+            in3->valuedouble = 3; in3->valueint = 3;
+            if (cJSON_Compare(a, c, 1) || cJSON_Compare(c, a, 0)) viol("C12", "documents nested %d deep (arrays) that differ in the innermost value compare equal", depth);
+        }
         cJSON_free(tc); free(exp); cJSON_Delete(a); cJSON_Delete(b); cJSON_Delete(c);
         al_in_call = 0;
         if (al_live != 0 || al_bad_free) viol("C07 C15 C16 C17 C18", "utilities on a document nested %d deep (%s): %ld block(s) remain allocated, %ld invalid releases", depth, what, al_live, al_bad_free);
         VD_END(); vd_tick();
+    }
+    {   /* trees deeper than the parser accepts but within CJSON_CIRCULAR_LIMIT, built with the API: a duplicate is an equal, independent copy (C11);
+         * the merge-patch application refuses a patch value it cannot duplicate without releasing anything twice (C07) */
+        static const int DD[] = { 1001, 5000 }; size_t di2;
+        for (di2 = 0; di2 < 2; di2++) {
+            cJSON *in, *src, *copy; char *t1, *t2; int depth = DD[di2];
+            if (depth >= CJSON_CIRCULAR_LIMIT) continue;
+            al_case_begin(); VD.cases++; deep_util_cases++;
+            if (!VD_TRY()) { al_in_call = 0; viol("*", "duplicating a tree nested %d deep: memory fault", depth); continue; }
+            al_in_call = 1;
+            src = deep_doc(depth, 0, 1, &in); copy = cJSON_Duplicate(src, 1);
+            if (!copy) viol("C11", "cJSON_Duplicate returned NULL for a tree nested %d deep (CJSON_CIRCULAR_LIMIT is %d)", depth, CJSON_CIRCULAR_LIMIT);
+            else {
+                if (!cJSON_Compare(src, copy, 1) || !cJSON_Compare(copy, src, 0)) viol("C11 C12", "the duplicate of a tree nested %d deep does not compare equal to it", depth);
+                t1 = cJSON_PrintUnformatted(src); t2 = cJSON_PrintUnformatted(copy);
+                if (!t1 || !t2 || strcmp(t1, t2)) viol("C11", "the duplicate of a tree nested %d deep prints differently", depth);
+                cJSON_free(t1); cJSON_free(t2);
+            }
+            cJSON_Delete(src); cJSON_Delete(copy);
+            al_in_call = 0;
+            if (al_live != 0 || al_bad_free) viol("C07 C11", "duplicating a tree nested %d deep: %ld block(s) remain allocated, %ld invalid releases", depth, al_live, al_bad_free);
+            VD_END(); vd_tick();
+        }
+        {   /* {"a":{"b":1},"k":2} merged with {"a":{"b":<array nested beyond CJSON_CIRCULAR_LIMIT>}} */
+            cJSON *in, *target, *patch, *pa, *res, *deep; int depth = CJSON_CIRCULAR_LIMIT + 5;
+            al_case_begin(); VD.cases++; deep_util_cases++;
+            if (VD_TRY()) {
+                al_in_call = 1;
+                target = cJSON_CreateObject(); pa = cJSON_AddObjectToObject(target, "a"); cJSON_AddNumberToObject(pa, "b", 1); cJSON_AddNumberToObject(target, "k", 2);
+                patch = cJSON_CreateObject(); pa = cJSON_AddObjectToObject(patch, "a"); deep = deep_doc(depth, 0, 1, &in); cJSON_AddItemToObject(pa, "b", deep);
+                res = cJSONUtils_MergePatchCaseSensitive(target, patch);      /* refused (NULL) or merged: either way every block has exactly one owner */
+                cJSON_Delete(res); cJSON_Delete(patch);
+                al_in_call = 0;
+                if (al_bad_free) viol("C07 C18 C14", "a merge patch holding an array nested beyond CJSON_CIRCULAR_LIMIT: %ld block(s) released twice or never allocated", al_bad_free);
+                VD_END();
+            } else { al_in_call = 0; viol("*", "a merge patch holding an array nested beyond CJSON_CIRCULAR_LIMIT: memory fault"); }
+            vd_tick();
+        }
     }
 #endif
 }
@@ -591,7 +635,7 @@ int vd_utils_main(int argc, char **argv)
         copy = strdup(line); jv_reset(); v = jv_parse_line(line);
         if (!v || v->t != JV_ARR || v->n < 2 || jv_at(v, 0)->t != JV_STR) { if (VD.passthrough) fputs(copy, VD.passthrough); free(copy); continue; }
         VD.curline = copy; VD.cases++; kind = jv_at(v, 0)->s;
-        al_case_begin();
+        al_case_begin(); al_reuse = (int)((vd_salt() >> 3) & 1);      /* half of the cases on a LIFO allocator: a released block comes back at once */
         if (VD_TRY()) {
             al_in_call = 1;
             if (kind[0] == 'G') do_lookup(v); else if (kind[0] == 'F') do_find(v); else if (kind[0] == 'A') do_apply(v);
